@@ -103,6 +103,7 @@ static void run_history(int family /*0 fast,1 HC*/, int nops, const char* mode, 
     u8* dictCopyBefore = NULL; size_t attachedDictSize = 0; int attached = 0;
     int c18 = !strcmp(mode, "c18"), c12 = !strcmp(mode, "c12"), c17 = !strcmp(mode, "c17");
     memset(&g, 0, sizeof g); g.arena = xalloc(ARENA); g.size = ARENA; g.kind = c18 ? 3 : (int)rndn(4); g.ringSize = 2 * MAXBLOCK + rndn(3 * MAXBLOCK);
+    if (g.kind == 1) { gen_data(g.arena, g.ringSize, D_LZLIKE); g.pos = rndp(60) ? rndn(30000) : 0; }   /* the stream need not start at the beginning of the ring */
     hist_reset(); mirror_reset(NULL, 0);
     if (family == 1) { level = (int[]){1,2,3,4,6,9,10,12}[rndn(8)]; LZ4_resetStreamHC_fast(hs, level); }
     TR("=== history family=%d geom=%d ring=%zu", family, g.kind, g.ringSize);
@@ -114,7 +115,8 @@ static void run_history(int family /*0 fast,1 HC*/, int nops, const char* mode, 
             int acc = (int[]){1,1,1,2,8,65537,0}[rndn(7)]; int cap, r;
             if (g.kind == 2 && n > MAXBLOCK) n = MAXBLOCK;
             src = place(&g, n);
-            fill_block(src, n, g_hist, g_histSize, dictbuf, 70000);
+            if (g.kind == 1 && rndp(45)) { size_t k; for (k = 0; k < n; k++) if (rndn(40) == 0) src[k] = (u8)rnd(); }   /* ring: a revised version of what was at this address a lap ago */
+            else fill_block(src, n, g_hist, g_histSize, dictbuf, 70000);
             cap = rndp(80) ? LZ4_compressBound((int)n) : (int)rndn((u32)LZ4_compressBound((int)n) + 1);
             if (family == 1 && rndp(15)) { level = (int[]){1,2,3,5,9,10,11,12}[rndn(8)]; LZ4_setCompressionLevel(hs, level); if (rndp(50)) LZ4_favorDecompressionSpeed(hs, rndp(50)); }
             r = family == 0 ? LZ4_compress_fast_continue(fs, (const char*)src, (char*)dst, (int)n, cap, acc) : LZ4_compress_HC_continue(hs, (const char*)src, (char*)dst, (int)n, cap);
@@ -214,6 +216,37 @@ static void run_history(int family /*0 fast,1 HC*/, int nops, const char* mode, 
     (void)c12;
 }
 
+/* Record-structured data in a compressor-side ring whose stream is (re)started at a position s0 > 0: the first wrapping block starts
+ * below the oldest history byte and overwrites its head.  Records are fixed-size (key + payload), so a lap later the same keys sit at the
+ * same ring addresses with different payloads: the layout in which a history that was not trimmed shows up as wrong bytes. */
+static void ring_restart_scenario(int family)
+{
+    static u8 keys[64][8]; static int keysInit = 0; size_t rec = 12, bs, ring, s0, pos, k; int nblocks, i; u8* ringbuf; u8* dst;
+    LZ4_stream_t* fs = LZ4_createStream(); LZ4_streamHC_t* hs = LZ4_createStreamHC(); int level = (int[]){2, 4, 9, 11}[rndn(4)];
+    if (!keysInit) { for (i = 0; i < 64; i++) for (k = 0; k < 8; k++) keys[i][k] = (u8)('A' + rndn(26)); keysInit = 1; }
+    bs = rec * (40 + rndn(400)); ring = bs * (2 + rndn(4)) + rec * rndn(20); s0 = rec * (1 + rndn((u32)(bs / rec - 1)));
+    ringbuf = xalloc(ring + bs); dst = xalloc((size_t)LZ4_compressBound((int)bs));
+    /* lap 0 content of the whole ring (what an earlier session left there) */
+    for (pos = 0; pos + rec <= ring + bs; pos += rec) { memcpy(ringbuf + pos, keys[(pos / rec * 7) % 64], 8); for (k = 8; k < rec; k++) ringbuf[pos + k] = (u8)rnd(); }
+    hist_reset(); mirror_reset(NULL, 0);
+    if (family == 1) LZ4_resetStreamHC_fast(hs, level); else LZ4_resetStream_fast(fs);
+    pos = s0; nblocks = 6 + (int)rndn(10);
+    for (i = 0; i < nblocks; i++) {
+        size_t n = bs - rec * rndn(3); int r; u8* src;
+        if (pos + n > ring) { pos = 0; n_wraps++; }
+        src = ringbuf + pos;
+        /* new lap: same keys at the same addresses, fresh payloads for most records; some records repeat an earlier record of this block */
+        for (k = 0; k + rec <= n; k += rec) { size_t j; if (k >= 2 * rec && rndp(30)) memcpy(src + k, src + rec * rndn((u32)(k / rec)), 8 + rndn(3)); for (j = 8; j < rec; j++) if (rndp(70)) src[k + j] = (u8)rnd(); }
+        r = family == 0 ? LZ4_compress_fast_continue(fs, (const char*)src, (char*)dst, (int)n, LZ4_compressBound((int)n), 1) : LZ4_compress_HC_continue(hs, (const char*)src, (char*)dst, (int)n, LZ4_compressBound((int)n));
+        n_calls++;
+        TR("ringrestart fam=%d ring=%zu bs=%zu s0=%zu pos=%zu n=%zu -> %d", family, ring, bs, s0, pos, n, r);
+        if (r <= 0) { rec_t rr; rec_begin(&rr, OP_STREAMBLOCK); c_fail(&rr, "continue_failed_at_bound"); break; }
+        g_mirrorValid = 0;
+        check_block(family, level, src, n, dst, r, 0); hist_append(src, n); pos += n;
+    }
+    LZ4_freeStream(fs); LZ4_freeStreamHC(hs); free(ringbuf); free(dst);
+}
+
 int main(int argc, char** argv)
 {
     const char* mode; int thorough, i; u64 seed; u8* dictbuf; int nh;
@@ -224,6 +257,7 @@ int main(int argc, char** argv)
     g_hist = xalloc(65536 + 8); g_ringSize = (size_t)LZ4_decoderRingBufferSize(MAXBLOCK); g_ring = xalloc(g_ringSize);
     nh = thorough ? 4000 : 300;
     for (i = 0; i < nh; i++) run_history(i % 2, 20 + (int)rndn(40), mode, dictbuf);
+    if (!strcmp(mode, "c11")) for (i = 0; i < (thorough ? 3000 : 200); i++) ring_restart_scenario(i % 4 == 3);
     if (thorough && !strcmp(mode, "c11")) {
         /* beyond the index renormalisation point: place the stream's index next to 2^31 through the public view and keep going */
         for (i = 0; i < 40; i++) { LZ4_stream_t* fs = LZ4_createStream(); (void)fs; LZ4_freeStream(fs); }
